@@ -35,9 +35,10 @@ Proof.
   - intro H. destruct (IH H). auto.
 Qed.
 
-Lemma pkce_ok_sound k v h : pkce_ok k v h = true -> pkce_match k v h.
+Lemma pkce_ok_sound st k v h : pkce_ok st k v h = true -> pkce_match k v h.
 Proof.
   unfold pkce_ok, pkce_match. destruct (c_sealed k) as [[[n chal] meth]|]; [|discriminate].
+  destruct (can_open st); cbn [negb]; [|discriminate].
   destruct (bs_eqb n (c_jti k)) eqn:N; cbn [negb]; [|discriminate]. apply bs_eqb_eq in N. subst n.
   destruct (bs_eqb meth [] || bs_eqb meth m_plain) eqn:P.
   - intro H. apply bs_eqb_eq in H. exists chal, meth. split; [reflexivity|]. left. split; [|exact H].
@@ -61,7 +62,7 @@ Lemma token_release_sound i now r idt act : token_endpoint i now r = Release idt
     c_redirect k = tr_redirect r /\ c_type k = k_code /\
     idt = p_id (srv i) now (fst (presented_creds r)) k /\ act = p_access (srv i) now k.
 Proof.
-  unfold token_endpoint.
+  unfold token_endpoint, token_endpoint_gen. cbn [andb negb]. rewrite !andb_true_r.
   destruct (tr_post r); cbn [negb]; [|discriminate].
   destruct (bs_eqb (tr_grant r) gt_authcode); cbn [negb]; [|discriminate].
   destruct (nonempty (tr_redirect r)); cbn [negb]; [|discriminate].
@@ -71,7 +72,7 @@ Proof.
   apply caller_creds in C.
   destruct (find_client id (clients i)) as [c|] eqn:F; [|discriminate].
   destruct (nonempty (tr_verifier r) && nonempty (cl_secret c)) eqn:X; [discriminate|].
-  set (v1 := nonempty (tr_verifier r) && pkce_ok k (tr_verifier r) (tr_vhash r)).
+  set (v1 := nonempty (tr_verifier r) && pkce_ok (srv i) k (tr_verifier r) (tr_vhash r)).
   destruct (if negb v1 && nonempty pass then bs_eqb pass (cl_secret c) else v1) eqn:VALID; cbn [negb]; [|discriminate].
   destruct (bs_eqb id (c_sub k)) eqn:S; cbn [negb]; [|discriminate].
   destruct (c_exp k <? unix now) eqn:E; [discriminate|].
@@ -86,8 +87,8 @@ Proof.
   - (* a verifier was sent: the client is secret-less and PKCE decided *)
     cbn [andb] in X. apply nonempty_false in X. right. split; [exact X|]. split; [apply nonempty_true; exact NV|].
     subst v1. cbn [andb] in VALID.
-    destruct (pkce_ok k (tr_verifier r) (tr_vhash r)) eqn:P.
-    + apply pkce_ok_sound. exact P.
+    destruct (pkce_ok (srv i) k (tr_verifier r) (tr_vhash r)) eqn:P.
+    + eapply pkce_ok_sound. exact P.
     + cbn [negb andb] in VALID. destruct (nonempty pass) eqn:NP.
       * apply bs_eqb_eq in VALID. rewrite X in VALID. subst pass. discriminate.
       * discriminate.
@@ -345,6 +346,7 @@ Proof.
   destruct (find_client (ar_client a) (clients i)) as [c|]; [|discriminate].
   destruct (ar_redirect_ok a); cbn [negb]; [|discriminate].
   destruct (nonempty (ar_challenge a) && nonempty (ar_method a) && negb (bs_eqb (ar_method a) m_S256)) eqn:M; [discriminate|].
+  destruct (nonempty (ar_challenge a) && negb (can_seal (srv i))); [discriminate|].
   destruct (nonempty (ar_audience a) && negb (ar_audience_ok a)); [discriminate|].
   destruct ((Z.of_nat (length (ar_nonce a)) <? 6) && nonempty (ar_nonce a)); [discriminate|].
   intro H. inversion H. split; [reflexivity|]. split; [eauto|]. split; [reflexivity|].
